@@ -558,9 +558,25 @@ def _arch_features(f):
     return conds, calls
 
 
+def _token_groups(P):
+    groups = {}
+    seen = set()
+    for tu in P.tus():
+        for f in P.funcs(tu):
+            if (f.name, f.loc) in seen:
+                continue
+            seen.add((f.name, f.loc))
+            st = stem(f.name)
+            if st != f.name:
+                # the dispatcher of an architecture (init_mb_mgr_avx2_internal) and its type-specific functions (.._avx2_t1_internal) are
+                # different roles
+                groups.setdefault(st + ('#type' if re.search(r'_t\d(_|$)', f.name) else ''), []).append(f)
+    return {k: v for k, v in groups.items() if len({x.loc.split(':')[0] for x in v}) >= 2}
+
+
 def arch_sibling_groups(P):
     res = {}
-    for st, ms in _arch_groups(P).items():
+    for st, ms in _token_groups(P).items():
         by_name = {}
         for m in ms:
             by_name.setdefault((m.name, m.loc.split(':')[0]), m)
